@@ -310,12 +310,15 @@ pub fn minimise(
     known: &KnownFindings,
 ) -> (Value, usize, RunOut) {
     let mut best = scenario.clone();
+    let t0 = Instant::now();
     let mut best_out = execute_isolated(def, prop, &best, known, false);
     let mut execs = 1usize;
+    // a scenario that kills or hangs its process is expensive per candidate: fewer candidates
+    let (max_execs, max_wall) = if invariant == "process-death" { (60usize, Duration::from_secs(900)) } else { (MAX_SHRINK_EXECS, Duration::from_secs(900)) };
     'outer: loop {
         let cands = (def.shrink)(prop, &best);
         for c in cands {
-            if execs >= MAX_SHRINK_EXECS {
+            if execs >= max_execs || t0.elapsed() > max_wall {
                 break 'outer;
             }
             if c == best {
